@@ -158,12 +158,12 @@ theorem refusal_before_send (O : Oracles) (extra : List (Char × Str)) (nsq : Bo
     `Host` = the URL's authority, and a body that reads back as one `{serviceType}action` element
     holding each in-argument exactly once, in declared order, whose text decodes to the supplied
     value; not accepted ⇒ a library error and nothing sent. -/
-theorem c06_model_ok (O : Oracles) (anc : String → List String) (a : ActionDecl) (kw : Kwargs)
+theorem c06_model_okCore (O : Oracles) (anc : String → List String) (a : ActionDecl) (kw : Kwargs)
     (hanc1 : (anc "UpnpError").contains "UpnpError" = true)
     (hanc2 : (anc "UpnpValueError").contains "UpnpError" = true)
     (H : Hyp O a kw) :
-    ok O a kw (modelObs anc (asyncCallSend O crTable true a kw)) = true := by
-  unfold ok
+    okCore O a kw (modelObs anc (asyncCallSend O crTable true a kw)) = true := by
+  unfold okCore
   cases hacc : allAccepted O a.strict a.inArgs kw with
   | none => rfl
   | some b =>
@@ -175,7 +175,7 @@ theorem c06_model_ok (O : Oracles) (anc : String → List String) (a : ActionDec
         have h1 : "UpnpError" ∈ anc "UpnpError" := by simpa using hanc1
         have h2 : "UpnpError" ∈ anc "UpnpValueError" := by simpa using hanc2
         rcases refusal_before_send O crTable true a kw H.url hacc with h | h <;>
-          simp [h, modelObs, excInfo, ExcInfo.isLibraryError, Exc.tok, h1, h2]
+          simp [h, refusedOk, modelObs, excInfo, ExcInfo.isLibraryError, Exc.tok, h1, h2]
       | true =>
         obtain ⟨args, hc, hn, hok⟩ := coerceArgs_ok O H.floats a.strict kw a.inArgs hacc H.domain
         have hv := validate_accepted O a.strict kw a.inArgs hacc
@@ -193,11 +193,23 @@ theorem c06_model_ok (O : Oracles) (anc : String → List String) (a : ActionDec
                 body := renderBody crTable true a.name a.serviceType args }], none) := by
           simp [asyncCallSend, createRequest, hu, hv, hc]
         rw [hsend]
-        simp only [modelObs, readEnvelope_render a.name a.serviceType args (xmlNameOk_nameOk _ H.action).2 hnames,
+        simp only [sentOk, modelObs, readEnvelope_render a.name a.serviceType args (xmlNameOk_nameOk _ H.action).2 hnames,
           Option.map_some, header_soapaction, header_host, header_ctype]
         have hct : contentTypeOk "text/xml; charset=\"utf-8\"".toList = true := by decide
         rw [hct, envelopeOk_tree O a kw args hok]
-        simp
+        simp [hu]
+
+/-- the judge `C06.ok` only relaxes `okCore` (extras are not judged; a proper-subclass value may also be
+    refused), so the model satisfies it as well -/
+theorem c06_model_ok (O : Oracles) (anc : String → List String) (a : ActionDecl) (kw : Kwargs)
+    (hanc1 : (anc "UpnpError").contains "UpnpError" = true)
+    (hanc2 : (anc "UpnpValueError").contains "UpnpError" = true)
+    (H : Hyp O a kw) :
+    ok O a kw (modelObs anc (asyncCallSend O crTable true a kw)) = true := by
+  unfold ok
+  split
+  · rfl
+  · rw [c06_model_okCore O anc a kw hanc1 hanc2 H]; rfl
 
 /-- the same, instantiated with the tables generated from the source -/
 theorem c06_model_ok_gen (O : Oracles) (a : ActionDecl) (kw : Kwargs) (H : Hyp O a kw) :
